@@ -35,6 +35,9 @@ Inv_C05 ==
 \* D5b (open): the replay itself exceeds a lowered Receive Maximum (b.overreplay)
 Inv_C06 == ~b.over
 Inv_C06_quota == c.live => c.quota + Unresolved(c) <= c.maxq \/ b.overreplay \/ c.quota = 0
+\* and the window is never under-used: a live connection's quota is exactly what the window leaves free
+\* (so a publish is refused with NotReady only when the window is full) -- "fully usable", C12 / C17
+Inv_Usable == c.live => c.quota = Sat(c.maxq - Unresolved(c))
 
 \* ---- C07: identifiers in flight are distinct and non-zero -------------------------------------------
 InFlightIds == [i \in 1..(Len(c.ret) + Len(c.rel)) |->
